@@ -12,15 +12,18 @@ use crate::exch_run::{replay_exchange, run_exchanges};
 use crate::gen::*;
 use crate::refmodel::framing::{decide, Framing};
 
-pub const RULE: &str = "full product: request version {1.0,1.1} x request Connection {absent, close, keep-alive, keep-alive+close as two fields} x request kind {GET, HEAD, POST with Content-Length, POST with Expect, GET carrying an Expect header} x Expect outcome {100 received / late 100 after give-up, silent server + give-up, refused bare, refused with fields} x response version {1.0,1.1} x status {200,204,304,404,302 with Location; 101 and 103 as bare answers to Expect} x response framing {none, Content-Length: 0, Content-Length: 3, chunked} x response Connection {absent, close, keep-alive, keep-alive+close}; every cell explored through the real flow under all mixtures of whole-message and 1-byte arrivals (quick: whole-message arrivals + give-up at every point), verdict read in the Redirect state and in Cleanup; part b: every prefix, cut after the complete Location line, of 3xx heads with Connection / framing fields before and after the Location line (3 methods x 3 statuses x 7 x 4 field sets x every cut): whenever the library accepts such a prefix as a complete response (known finding KF1 of C05) the exchange must end must-close. distinct = distinct (cell, final observation) pairs";
+pub const RULE: &str = "full product: request version {1.0,1.1} x request Connection {absent, close, keep-alive, keep-alive+close as two fields} x request kind {GET, HEAD, POST with Content-Length, POST with Expect, GET carrying an Expect header, GET obtained by following a 302 of a POST} x Expect outcome {100 received / late 100 after give-up, silent server + give-up, refused bare, refused with fields} x response version {1.0,1.1} x status {200,204,205,300,304,404,302 and 399 with Location; 101 and 103 as bare answers to Expect} x response framing {none, Content-Length: 0, Content-Length: 3, chunked} x response Connection {absent, close, keep-alive, keep-alive+close}; every cell explored through the real flow under all mixtures of whole-message and 1-byte arrivals (quick: whole-message arrivals + give-up at every point), verdict read in the Redirect state and in Cleanup; part b: every prefix, cut after the complete Location line, of 3xx heads with Connection / framing fields before and after the Location line (3 methods x 3 statuses x 7 x 4 field sets x every cut): whenever the library accepts such a prefix as a complete response (known finding KF1 of C05) the exchange must end must-close. distinct = distinct (cell, final observation) pairs";
 
 pub fn build(tier: Tier) -> Vec<Arc<ExchCfg>> {
     let mut out = Vec::new();
     let conns: [&[&str]; 4] = [&[], &["close"], &["keep-alive"], &["keep-alive", "close"]];
     for rver in ["1.0", "1.1"] {
         for rconn in conns {
-            for kind in ["GET", "HEAD", "POST", "POST-expect", "GET-expect"] {
+            for kind in ["GET", "HEAD", "POST", "POST-expect", "GET-expect", "GET-via-redirect"] {
                 let (method, expect) = match kind {
+                    // the request of a flow obtained by following a redirect of a POST (inherits version,
+                    // Connection and Expect headers; its own close conditions start afresh)
+                    "GET-via-redirect" => ("GET", true),
                     "POST-expect" => ("POST", true),
                     // an Expect header on a request without body (nothing is awaited)
                     "GET-expect" => ("GET", true),
@@ -30,21 +33,40 @@ pub fn build(tier: Tier) -> Vec<Arc<ExchCfg>> {
                 for c in rconn {
                     rs.cfg = rs.cfg.orig("connection", c);
                 }
+                let prep: Option<crate::exch::PrepFn> = if kind == "GET-via-redirect" {
+                    let rver = rver.to_string();
+                    let rconn: Vec<String> = rconn.iter().map(|s| s.to_string()).collect();
+                    Some(Arc::new(move || {
+                        use crate::chain::{follow, Followed, Loc};
+                        let mut orig = crate::driver::ReqCfg::new("POST", &rver, "http://a.test/p").orig("content-length", "3").orig("expect", "100-continue");
+                        for c in &rconn {
+                            orig = orig.orig("connection", c);
+                        }
+                        orig = orig.orig("x-trace", "t1");
+                        let pf = orig.build_prepare()?;
+                        match follow(&pf, b"abc", 302, &Loc::one("/next"), false)? {
+                            Followed::New(f) => Ok(f),
+                            _ => Err("redirect not followed".into()),
+                        }
+                    }))
+                } else {
+                    None
+                };
                 let outcomes: &[&str] = if expect && method == "POST" { &["100", "silent", "refused-bare", "refused-fields"] } else { &["na"] };
                 for oc in outcomes {
                     for sver in ["1.0", "1.1"] {
-                        for status in [200u16, 204, 304, 404, 302, 101, 103] {
+                        for status in [200u16, 204, 304, 404, 302, 101, 103, 300, 205, 399] {
                             // 1xx other than 100 only matter as answers to an Expect request (bare refusal)
                             if (status == 101 || status == 103) && *oc != "refused-bare" {
                                 continue;
                             }
                             for fr in ["none", "cl0", "cl3", "chunked"] {
                                 for sconn in conns {
-                                    if *oc == "refused-bare" && (fr != "none" || !sconn.is_empty() || status == 302) {
+                                    if *oc == "refused-bare" && (fr != "none" || !sconn.is_empty() || status == 302 || status == 399) {
                                         continue; // a bare head has no fields at all
                                     }
                                     let mut extra: Vec<(&str, &str)> = Vec::new();
-                                    if status == 302 {
+                                    if status == 302 || status == 399 {
                                         extra.push(("Location", "/next"));
                                     }
                                     for c in sconn {
@@ -75,7 +97,10 @@ pub fn build(tier: Tier) -> Vec<Arc<ExchCfg>> {
                                     menu.arrive = if tier.thorough() { vec![1, usize::MAX] } else { vec![usize::MAX] };
                                     menu.allow_giveup = true;
                                     let trailing = if close { vec![] } else { b"HTTP/1.1 200 OK\r\n\r\n".to_vec() };
-                                    let mut cfg = ExchCfg::new("C10", rs.cfg.clone(), rs.body.clone(), srv, trailing, menu).expect("cfg");
+                                    if prep.is_some() && (status == 205 || status == 300 || status == 399 || fr == "cl0") {
+                                        continue; // keep the redirected family small
+                                    }
+                                    let mut cfg = ExchCfg::new_with_prep("C10", rs.cfg.clone(), rs.body.clone(), srv, trailing, menu, prep.clone()).expect("cfg");
                                     cfg.scope = |k| k.starts_with("verdict:") || k.starts_with("redirect:wrong-status");
                                     out.push(Arc::new(cfg));
                                 }
